@@ -176,20 +176,12 @@ theorem dv_setState {s s' : EState} {n : St} (h : setState s n = .ok s') : dv s'
 @[simp] theorem dv_closeGen (s : EState) (g : Gen) : dv (closeGen s g) = dv s := by
   unfold closeGen; split <;> rfl
 
+/-- close a frame goal `dv (f ... s ...) = dv s` after unfolding `f` -/
+macro "frame_dv" : tactic =>
+  `(tactic| repeat' (first | rfl | (simp; done) | split | (simp only []; (first | rfl | split))))
+
 @[simp] theorem dv_noteMsg (s : EState) (m : Msg) : dv (noteMsg s m) = dv s := by
-  unfold noteMsg
-  simp only []
-  split
-  · split
-    · split
-      · split <;> rfl
-      · rfl
-    · split
-      · split <;> rfl
-      · rfl
-  · split
-    · split <;> rfl
-    · rfl
+  unfold noteMsg; frame_dv
 
 @[simp] theorem dv_takeResp (s : EState) (r : Resp) (rs : List Resp) : dv (takeResp s r rs) = dv s := by
   unfold takeResp; simp only []; split <;> rfl
